@@ -15,7 +15,7 @@
 (*   thresholds: the transcription of praatio's save preparation           *)
 (*   (FileImpl) satisfies the C04 clauses (FileProp).                      *)
 (***************************************************************************)
-EXTENDS FileImpl, TLC, Json
+EXTENDS FileImpl, ReaderImpl, TLC, Json
 
 CONSTANTS Mode, LabLen, N, K, Emit, Slice, NSlices
 
@@ -110,6 +110,11 @@ Spec == Init /\ [][Next]_vars
 (* ---------------- what TLC checks --------------------------------------------------- *)
 \* the specification's reader recovers exactly what the specification's writer encoded
 DecodeIsInverse == out.op = "open" => out.decoded = out.doc
+\* praatio's reader decisions (ReaderImpl) against the specification's lexer, for the document in mem:
+\* the odd-quote-run terminator is right on every name and label; the keyword searches are right on keyword-free documents
+ReaderRulesOK == (Mode = "format") =>
+                   /\ \A k \in 1..Len(DocTexts(mem)) : QuoteRuleAgrees(DocTexts(mem)[k])
+                   /\ (KeywordFree(mem) <=> (SniffRight(mem) /\ BlocksRight(mem)))
 NoFail == IF out.op = "prep" /\ out.fails # {} THEN PrintT(<<"FAILS", out>>) /\ FALSE ELSE TRUE
 EmitInv == IF Emit /\ out.op \in {"save", "prep"} THEN PrintT(ToJson(out)) ELSE TRUE
 =============================================================================
